@@ -44,6 +44,8 @@ theorem outpointBytes_spec (T : Tables) (x : TxIn) (h : C01.WFIn T x = true) :
   rw [pack_I x.index h0 h1]
   simp only [bind, Except.bind, pure, Except.pure, outpoint, C01.rawIn]
 
+theorem rawIn_sequence (T : Tables) (x : TxIn) : (C01.rawIn T x).sequence = x.sequence := rfl
+
 /-- the part of an input the segwit digest reads -/
 def proj (x : TxIn) : Bytes × Int × Bytes := (x.txid, x.index, x.sequence)
 
@@ -58,5 +60,15 @@ theorem map_outpointBytes (l : List TxIn) : l.map outpointBytes = (l.map proj).m
 
 theorem flatMap_sequence (l : List TxIn) : l.flatMap (·.sequence) = (l.map proj).flatMap (·.2.2) := by
   simp [List.flatMap_map, proj]
+
+theorem getElem?_proj (l l' : List TxIn) (h : l'.map proj = l.map proj) (i : Nat) :
+    (l'[i]?).map proj = (l[i]?).map proj := by
+  rw [← List.getElem?_map, ← List.getElem?_map, h]
+
+theorem sequence_of_proj {x x' : TxIn} (h : proj x' = proj x) : x'.sequence = x.sequence :=
+  congrArg (·.2.2) h
+
+theorem outpointBytes_of_proj {x x' : TxIn} (h : proj x' = proj x) : outpointBytes x' = outpointBytes x := by
+  rw [outpointBytes_eq, outpointBytes_eq, h]
 
 end Digest04
